@@ -1745,6 +1745,7 @@ EGLPNUM_TYPENAME_QSLIB_INTERFACE int EGLPNUM_TYPENAME_QSload_basis (
 	QSbasis * B)
 {
 	int rval = 0;
+	EGLPNUM_TYPENAME_ILLlp_basis nB;
 
 	rval = check_qsdata_pointer (p);
 	CHECKRVALG (rval, CLEANUP);
@@ -1756,6 +1757,15 @@ EGLPNUM_TYPENAME_QSLIB_INTERFACE int EGLPNUM_TYPENAME_QSload_basis (
 		goto CLEANUP;
 	}
 
+	/* convert first: a rejected basis must not destroy the current one */
+	EGLPNUM_TYPENAME_ILLlp_basis_init (&nB);
+	rval = qsbasis_to_illbasis (B, &nB);
+	if (rval)
+	{
+		EGLPNUM_TYPENAME_ILLlp_basis_free (&nB);
+		ILL_CLEANUP;
+	}
+
 	if (p->basis == 0)
 	{
 		ILL_SAFE_MALLOC (p->basis, 1, EGLPNUM_TYPENAME_ILLlp_basis);
@@ -1765,9 +1775,7 @@ EGLPNUM_TYPENAME_QSLIB_INTERFACE int EGLPNUM_TYPENAME_QSload_basis (
 	{
 		EGLPNUM_TYPENAME_ILLlp_basis_free (p->basis);
 	}
-
-	rval = qsbasis_to_illbasis (B, p->basis);
-	CHECKRVALG (rval, CLEANUP);
+	*(p->basis) = nB;
 
 	p->factorok = 0;
 
@@ -1781,9 +1789,19 @@ EGLPNUM_TYPENAME_QSLIB_INTERFACE int EGLPNUM_TYPENAME_QSread_and_load_basis (
 	const char *filename)
 {
 	int rval = 0;
+	EGLPNUM_TYPENAME_ILLlp_basis nB;
 
 	rval = check_qsdata_pointer (p);
 	CHECKRVALG (rval, CLEANUP);
+
+	/* read first: an unreadable file must not destroy the current basis */
+	EGLPNUM_TYPENAME_ILLlp_basis_init (&nB);
+	rval = EGLPNUM_TYPENAME_ILLlib_readbasis (p->lp, &nB, filename);
+	if (rval)
+	{
+		EGLPNUM_TYPENAME_ILLlp_basis_free (&nB);
+		ILL_CLEANUP;
+	}
 
 	if (p->basis == 0)
 	{
@@ -1794,9 +1812,8 @@ EGLPNUM_TYPENAME_QSLIB_INTERFACE int EGLPNUM_TYPENAME_QSread_and_load_basis (
 	{
 		EGLPNUM_TYPENAME_ILLlp_basis_free (p->basis);
 	}
-
-	rval = EGLPNUM_TYPENAME_ILLlib_readbasis (p->lp, p->basis, filename);
-	CHECKRVALG (rval, CLEANUP);
+	*(p->basis) = nB;
+	p->factorok = 0;
 
 CLEANUP:
 
